@@ -11,6 +11,8 @@ observed : cwres/swres=<w>.<j>.<n>.<err>,…   result of every Write / WriteTo c
                                               that was blocked when Close came
            chunks=<hex>,…                     (read) every chunk returned to any reader
            dg=<hex>,…                         (dgram) every datagram returned by ReadFrom (sorted)
+           call=<r> close=<r>                 (silent) the parked call and the Close that must unblock it
+           ran=<n> res=… echo same swres sstream  (switch) the first suspicious of n first-use trials, else the last
            dead=0|1 panic=<msg|-> races=<n|na> sites=<…>
 
 Judgement.  What the lock model predicts (no deadlock, whole payloads, one handshake result,
@@ -170,9 +172,22 @@ def judge (c o : String) : Option Verdict := do
           else if got.length != sent.length then some ("dgram-lost", s!"{got.length} of {sent.length} datagrams arrived over a lossless transport")
           else none
       | _, _ => some ("shape", "unparseable datagrams")
+    else if scen == "silent" then
+      let call := (kv ot "call").getD "-"
+      let cl := (kv ot "close").getD "-"
+      if cl == "-" then some ("close-unblock", "Close did not return while a call was parked on a silent peer")
+      else if call == "-" then some ("close-unblock", "the call parked on a silent peer never returned after Close")
+      else if call == "ok" then some ("close-unblock", "the call parked on a silent peer reported success")
+      else none
     else if scen == "switch" then
-      if (kv ot "echo") == some "1" && (items ((kv ot "res").getD "-")).all (· == "ok") then none
-      else some ("switch", s!"first use from two goroutines failed: {(kv ot "res").getD "?"}")
+      let n := ((kv ct "n").bind String.toNat?).getD 1
+      let writers := (List.range n).map fun w => (10 + w, 0, 64)
+      firstSome [
+        (if (items ((kv ot "res").getD "-")).all (· == "ok") && (kv ot "echo") == some "1" then none
+         else some ("switch", s!"first use from several goroutines failed: {(kv ot "res").getD "?"} echo={(kv ot "echo").getD "?"}")),
+        (if (kv ot "same") == some "1" then none
+         else some ("switch-twice", "the first callers did not all end up on the same protected connection")),
+        streamVerdict "server→client" writers (kv ot "swres") (kv ot "sstream")]
     else some ("shape", s!"unknown scenario {scen}")
   -- a torn stream / diverging handshake results ARE behaviours of the model when the extracted
   -- code no longer has the one `out` section / the re-check (the spec still fails them)
